@@ -226,6 +226,8 @@ def close(a, b, rtol=1e-9, atol=0.0, scale=None):
 # ---------------------------------------------------------------- known findings
 
 def load_known():
+    """known_findings.json is the committed file; it is assembled from known_findings.d/*.json by
+    harness/merge_findings.py at development time, never at run time"""
     p = os.path.join(VERIF, "known_findings.json")
     if not os.path.exists(p):
         return []
@@ -276,7 +278,9 @@ def _run(mod, ctx, t0):
         except Exception as e:
             traceback.print_exc()
             ctx.broken.append(f"extract: translator could not read the source: {e!r}")
-    # 2. build
+    # 2. build (templates and driver are re-instantiated first; no-op when unchanged)
+    from harness import instantiate
+    instantiate.main()
     ok, log = lake_build(list(mod.LEAN_TARGETS) + ["driver"])
     if not ok:
         ctx.say(f"[{pid}] lake build FAILED")
